@@ -367,7 +367,7 @@ RETCODE adfSetEntryAccess ( struct AdfVolume * const vol,
             return rc;
     }
     else if ( entry.secType == ST_FILE) {
-        adfWriteFileHdrBlock(vol, nSect, (struct bFileHeaderBlock*)&entry);
+        rc = adfWriteFileHdrBlock(vol, nSect, (struct bFileHeaderBlock*)&entry);
         if ( rc != RC_OK )
             return rc;
     }
